@@ -347,6 +347,21 @@ theorem extractPatches_shape {α : Type} (sampler : Nat → Mode → Nat → Pt 
   · obtain ⟨out, h1, h2, _⟩ := sampling_patch_layout (sampler order mode) C ph pw centres offsets cval
     exact ⟨out, by rw [d2 h, h1], h2⟩
 
+/-- PROPERTY (patch shape through the public entry point, EVERY centre, rounding ties included): for every channel
+count, interpolation order and boundary mode `Image.extract_patches` returns an array of shape
+`(centres, offsets, channels, ph, pw)` - no hypothesis on the centres -/
+theorem extractPatches_shape_all {α : Type} (sampler : Nat → Mode → Nat → Pt → α) (pix : NDArr α)
+    (C H W : Nat) (hshape : pix.shape = [C, H, W])
+    (centres : List Pt) (ph pw : Nat) (offsets : Option (List Pt)) (order : Nat) (mode : Mode) (cval : α) :
+    ∃ out, extractPatches .repaired sampler pix centres ph pw offsets order mode cval = .ok out ∧
+      out.shape = [centres.length, (offsets.getD [(0, 0)]).length, C, ph, pw] := by
+  obtain ⟨d1, d2⟩ := extractPatches_dispatch .repaired sampler pix C H W hshape centres ph pw offsets order mode cval
+  by_cases h : order = 0 ∧ mode = .constant
+  · obtain ⟨out, h1, h2, _⟩ := slicing_patch_layout_all pix C H W hshape centres ph pw offsets cval
+    exact ⟨out, by rw [d1 h, h1], h2⟩
+  · obtain ⟨out, h1, h2, _⟩ := sampling_patch_layout (sampler order mode) C ph pw centres offsets cval
+    exact ⟨out, by rw [d2 h, h1], h2⟩
+
 /-- `extract_patches_around_landmarks` is `extract_patches` with the default order, mode and fill value -/
 theorem extractAroundLandmarks_eq {α : Type} (v : Variant) (sampler : Nat → Mode → Nat → Pt → α) (pix : NDArr α)
     (lms : List Pt) (ph pw : Nat) (offsets : Option (List Pt)) (zero : α) :
@@ -357,14 +372,15 @@ theorem extractAroundLandmarks_eq {α : Type} (v : Variant) (sampler : Nat → M
 /-- PROPERTY (path equivalence through the public entry point): at integer centres and offsets
 `extract_patches(order=1)` and the default `extract_patches()` return the same shape and pixels. -/
 theorem extractPatches_orders_agree (pix : NDArr Rat) (C H W : Nat) (hshape : pix.shape = [C, H, W]) (hwf : pix.WF)
-    (cz : List (Int × Int)) (ph pw : Nat) (oz : Option (List (Int × Int))) (cval : Rat) (order : Nat) :
+    (cz : List (Int × Int)) (ph pw : Nat) (oz : Option (List (Int × Int))) (cval : Rat) (order : Nat)
+    (horder : order ≤ 1) :
     ∃ a b, extractPatches .repaired (ratSampler pix cval) pix (cz.map toPt) ph pw (oz.map (List.map toPt))
         0 .constant cval = .ok a ∧
       extractPatches .repaired (ratSampler pix cval) pix (cz.map toPt) ph pw (oz.map (List.map toPt))
         order .constant cval = .ok b ∧
       a.shape = b.shape ∧
       ∀ i j c r q, inRange a.shape [i, j, c, r, q] = true → a.get? [i, j, c, r, q] = b.get? [i, j, c, r, q] := by
-  obtain ⟨a, b, h1, h2, h3, _, h5⟩ := slice_eq_sampling_at_integers_orders order pix C H W hshape hwf cz ph pw oz cval
+  obtain ⟨a, b, h1, h2, h3, _, h5⟩ := slice_eq_sampling_at_integers_orders order horder pix C H W hshape hwf cz ph pw oz cval
   by_cases ho : order = 0
   · subst ho
     exact ⟨a, a, by simp only [extractPatches, and_self, if_true]; exact h1,
